@@ -132,7 +132,8 @@ def size_sweep(fn, chk, nmax):
         ff = ff / ff.sum()
         dev = float(np.abs(f2 - ff).max() / ff.max())
         worst = max(worst, dev)
-        if not dev <= 1e-12:     # rounding of two different summation orders over up to nmax terms
+        if not dev <= 1e-10:     # rounding of two different summation orders over up to nmax terms (the compiled
+            # normalisation sums sequentially: observed up to 3e-12 at 5e4 - 6e4 grains; a wrong floor is off by > 1e-6)
             bad.setdefault("volume", []).append(n)
         chk.count(("sweep", n))
     chk.maximum("size_sweep_volume_rel_dev", worst)
@@ -283,6 +284,13 @@ def run_history(pd, hook, sc, tid, chk, facts, lines, meta, nupd=None, salt=0):
     total = nupd or sc["nupd"]
     rp = sc.get("rp") or [4, 4]
     for k in range(1, total + 1):
+        if tid % 3 == 1:
+            # threshold programme: the client edits the threshold IN PLACE in the one parameter dictionary it hands to
+            # every update of this history (chi, 0, chi + 0.1, chi, ...): each update is judged with the threshold in
+            # force when it was called
+            chi10 = (sc["chi"], 0, min(sc["chi"] + 1, 9), sc["chi"])[k % 4]
+            params["gbs_threshold"] = chi10 / 10.0
+            chi = float(params["gbs_threshold"])
         regime = rp[0] if 5 * k <= 3 * total else rp[1]
         zero_mobility = regime == 40          # programme code: matrix_dislocation with M* = 0
         if zero_mobility:
